@@ -92,7 +92,7 @@ def check(prop: str, tier: str) -> int:
     unresolved = [o for o in obs if o.state == "unresolved"]
     known_obs = [o for o in obs if o.state == "known"]
 
-    out_dir = os.path.join(VERIF, "out", prop)
+    out_dir = os.path.join(VERIF, "out", prop + ("_" + str(os.getpid()) if os.environ.get("SA_NO_EVIDENCE") else ""))
     os.makedirs(out_dir, exist_ok=True)
     for f in os.listdir(out_dir):
         if f.endswith(".json"):
@@ -106,7 +106,7 @@ def check(prop: str, tier: str) -> int:
         seen_known.add(o.ident())
         lines.append(f"KNOWN-FINDING: property={prop} {o.rule} {o.func}: {o.reason}")
     for i, o in enumerate(violations):
-        path = os.path.join("out", prop, f"{i}.json")
+        path = os.path.join(os.path.relpath(out_dir, VERIF), f"{i}.json")
         json.dump({"property": prop, "obligation": o.__dict__, "tier": tier}, open(os.path.join(VERIF, path), "w"), indent=1)
         lines.append(f"  {o.where} [{o.rule}] {o.func}: {o.detail}")
         for d in o.derivation[:6]:
@@ -118,7 +118,8 @@ def check(prop: str, tier: str) -> int:
         lines.append(f"ANALYSIS-ERROR {e}")
 
     wall = time.time() - t0
-    _write_evidence(prop, tier, ctx, obs, per_rule, built, not_built, errors, wall, selftest_info, audit)
+    if not os.environ.get("SA_NO_EVIDENCE"):
+        _write_evidence(prop, tier, ctx, obs, per_rule, built, not_built, errors, wall, selftest_info, audit)
     summ = R.summarize(obs)
     print(f"[{prop}/{tier}] rules={','.join(built)} obligations={len(obs)} " + " ".join(f"{k}={v}" for k, v in sorted(summ.items())) + f" wall={wall:.2f}s")
     for l in lines:
